@@ -285,15 +285,15 @@ static void STUB_free_array(struct ets_base *self, void *p, size_t bytes) {
     my_arr = 3;
 }
 #define LK_ASSIGNS_SLOT SL, cur_tab, cur_idx, sl_ptr0, gj_seen, scratch_lg, scratch_next
-#define LOOP_lookup_1 __CPROVER_assigns(r, found, *exists, B.my_root, LK_ASSIGNS_SLOT) \
+#define LOOP_lookup_chain __CPROVER_assigns(r, found, *exists, B.my_root, LK_ASSIGNS_SLOT) \
     __CPROVER_loop_invariant((r == NULL || IS_TAB(r)) && ROOT_OK && SL.ptr == sl_ptr0 && IMP(me_lvl != 0, r != NULL && LVL(r) >= me_lvl))
-#define LOOP_lookup_2 __CPROVER_assigns(i, found, *exists, B.my_root, LK_ASSIGNS_SLOT) \
+#define LOOP_lookup_probe __CPROVER_assigns(i, found, *exists, B.my_root, LK_ASSIGNS_SLOT) \
     __CPROVER_loop_invariant(ROOT_OK && SL.ptr == sl_ptr0 && i < ASZ(r) && IMP(me_lvl != 0 && LVL(r) == me_lvl, DIST(r, i) <= me_rel))
 #define S0 (r ? LVL(r) : (size_t)2)
-#define LOOP_lookup_3 __CPROVER_assigns(s) __CPROVER_loop_invariant(s >= S0 && s <= 62 && (s == S0 || c > ((size_t)1 << (s - 2)))) __CPROVER_decreases(64 - s)
-#define LOOP_lookup_4 __CPROVER_assigns(r, B.my_root, MY_next, my_arr, scratch_lg, scratch_next) \
+#define LOOP_lookup_sizing __CPROVER_assigns(s) __CPROVER_loop_invariant(s >= S0 && s <= 62 && (s == S0 || c > ((size_t)1 << (s - 2)))) __CPROVER_decreases(64 - s)
+#define LOOP_lookup_publish __CPROVER_assigns(r, B.my_root, MY_next, my_arr, scratch_lg, scratch_next) \
     __CPROVER_loop_invariant(my_arr == 1 && a == MYP && MY_lg == s && arr_zeroed && (r == NULL || (IS_TAB(r) && LVL(r) < s && B.my_root != NULL && LVL(B.my_root) >= LVL(r))) && ROOT_OK)
-#define LOOP_lookup_5 __CPROVER_assigns(i, LK_ASSIGNS_SLOT, my_claims, claim_tab, claim_idx) \
+#define LOOP_lookup_insert __CPROVER_assigns(i, LK_ASSIGNS_SLOT, my_claims, claim_tab, claim_idx) \
     __CPROVER_loop_invariant(i < ASZ(ir) && SL.ptr == sl_ptr0 && my_claims == 0 && IMP(ir == g_jt && g_j < ASZ(ir) && DIST(ir, g_j) < DIST(ir, i), gj_seen))
 #include "lookup.inc"
 size_t IN_me_lvl, IN_root_lvl;
